@@ -209,15 +209,14 @@ Fixpoint prefixb (b l : list N) : bool :=
 Fixpoint sfind_aux (l b : list N) (i : N) : option N :=
   if prefixb b l then Some i else
   match l with [] => None | _ :: t => sfind_aux t b (i + 1) end.
-Fixpoint srfind_aux (l b : list N) (i : N) : option N :=
-  match l with
-  | [] => if prefixb b [] then Some i else None
-  | _ :: t =>
-    match srfind_aux t b (i + 1) with
-    | Some j => Some j
-    | None => if prefixb b l then Some i else None
-    end
+(* rfind: the last position j <= len - |b| at which b occurs (scan from the top) *)
+Fixpoint srfind_from (l b : list N) (k : nat) : option N :=
+  match k with
+  | O => None
+  | S j => if prefixb b (skipn j l) then Some (N.of_nat j) else srfind_from l b j
   end.
+Definition srfind (l b : list N) : option N :=
+  if Nat.ltb (length l) (length b) then None else srfind_from l b (S (length l - length b)).
 
 Definition sins (s : sstr) (i : N) (l : list N) : sstr * obs :=
   let bs := sbytes s in
@@ -244,7 +243,7 @@ Definition sstr_step (dev : bool) (s : sstr) (o : sop) : sstr * obs :=
   | SRetain l =>
     (ss s (filter (fun c => if dev then negb (memb l c) else memb l c) bs), OUnit)
   | SFind l => (s, OO (sfind_aux bs l 0))
-  | SRfind l => (s, OO (srfind_aux bs l 0))
+  | SRfind l => (s, OO (srfind bs l))
   | SStripPrefix l =>
     if prefixb l bs then (ss s (skipn (length l) bs), OB true) else (s, OB false)
   | SStripSuffix l =>
